@@ -5,6 +5,7 @@ import (
 	"fmt"
 	"math/big"
 	"net/url"
+	"strconv"
 	"strings"
 
 	"github.com/freeconf/yang/meta"
@@ -42,14 +43,14 @@ type c16Type struct {
 var c16Ops = []string{"=", "!=", "<", "<=", ">", ">="}
 
 var c16Types = []c16Type{
-	{"int8", "int8", []string{"10", "-5"}},
+	{"int8", "int8", []string{"10", "-5", "0.5"}},
 	{"int16", "int16", []string{"10", "-300"}},
-	{"int32", "int32", []string{"10", "-70000"}},
+	{"int32", "int32", []string{"10", "-70000", "10.5"}},
 	{"int64", "int64", []string{"10", "-5000000000", "9007199254740993"}},
 	{"uint8", "uint8", []string{"10", "200"}},
 	{"uint16", "uint16", []string{"10", "40000"}},
 	{"uint32", "uint32", []string{"10", "3000000000"}},
-	{"uint64", "uint64", []string{"10", "9223372036854775807"}},
+	{"uint64", "uint64", []string{"10", "9223372036854775807", "9223372036854775808", "18446744073709551615", "0.5"}},
 	{"decimal64", "decimal64 { fraction-digits 2; }", []string{"1.5", "-1.5", "10"}},
 	{"string", "string", []string{"'m'", "'ab'"}},
 	{"boolean", "boolean", []string{"'true'", "'false'"}},
@@ -98,7 +99,13 @@ func c16Operands(lf meta.Leafable, typ, literal string) ([]c16Operand, val.Value
 	var litV val.Value
 	switch typ {
 	case "int8", "int16", "int32", "int64", "uint8", "uint16", "uint32", "uint64":
-		n, _ := new(big.Int).SetString(lit, 10)
+		n, isInt := new(big.Int).SetString(lit, 10)
+		frac := !isInt
+		if frac {
+			// a literal with a fraction against an integer leaf: operands are the integers around it
+			f, _ := new(big.Float).SetString(lit)
+			n, _ = f.Int(nil)
+		}
 		bits := map[string]int{"int8": 8, "int16": 16, "int32": 32, "int64": 64, "uint8": 8, "uint16": 16, "uint32": 32, "uint64": 64}[typ]
 		lo, hi := kindRange(bits, !strings.HasPrefix(typ, "u"))
 		add := func(class string, b *big.Int) {
@@ -112,6 +119,15 @@ func c16Operands(lf meta.Leafable, typ, literal string) ([]c16Operand, val.Value
 		add("type-min", lo)
 		add("type-max", hi)
 		litV = mkInt(typ, n)
+		if frac {
+			fl, _ := strconv.ParseFloat(lit, 64)
+			litV = val.Decimal64(fl)
+			for i := range out {
+				if out[i].class == "equal" {
+					out[i].class = "below" // floor of the literal
+				}
+			}
+		}
 	case "decimal64":
 		f := mk(lit).(val.Decimal64)
 		out = append(out, c16Operand{"below", f - 0.01}, c16Operand{"equal", f}, c16Operand{"above", f + 0.01}, c16Operand{"type-min", val.Decimal64(-92233720368547758.08)}, c16Operand{"type-max", val.Decimal64(92233720368547758.07)})
@@ -168,8 +184,8 @@ func c16Truth(typ, op string, a, lit val.Value) bool {
 		rl.SetFloat64(float64(lit.(val.Decimal64)))
 		c = ra.Cmp(rl)
 	default:
-		ra, _ := new(big.Int).SetString(a.String(), 10)
-		rl, _ := new(big.Int).SetString(lit.String(), 10)
+		ra, _ := new(big.Rat).SetString(a.String())
+		rl, _ := new(big.Rat).SetString(lit.String())
 		c = ra.Cmp(rl)
 	}
 	switch op {
